@@ -421,16 +421,39 @@ public:
           }
           ++this_it;
         } else {
-          // The partition on the left overlaps one or more partitions on the
-          // right
-          NumDomain other_dom = other_it->get_dom();
-          for (auto it = ++other_it;
-               it != other_et &&
+          // The partition on the left reaches beyond the partition on
+          // the right: the values of the variable between two
+          // partitions on the right belong to no partition, so the left
+          // partition is included only if the right partitions it
+          // overlaps leave no gap, and each of them includes the part
+          // of the left partition that lies in its interval. (The join
+          // of the right partitions would also describe the gaps.)
+          auto covered_ub = other_it->get_interval().ub();
+          for (auto it = other_it; it != other_et &&
                this_it->get_interval().ub() >= it->get_interval().lb();
                ++it) {
-            other_dom |= it->get_dom();
+            if (it != other_it) {
+              auto reach = covered_ub;
+              if (std::is_same<number_t, ikos::z_number>::value) {
+                reach = reach + number_t(1);
+              }
+              if (reach < it->get_interval().lb()) {
+                return false;
+              }
+              covered_ub = it->get_interval().ub();
+            }
+            NumDomain this_part = this_it->get_dom();
+            if (boost::optional<number_t> lb = it->get_interval().lb().number()) {
+              this_part += linear_constraint_t(linear_expression_t(*m_variable) >= *lb);
+            }
+            if (boost::optional<number_t> ub = it->get_interval().ub().number()) {
+              this_part += linear_constraint_t(linear_expression_t(*m_variable) <= *ub);
+            }
+            if (!(this_part <= it->get_dom())) {
+              return false;
+            }
           }
-          if (!(this_it->get_dom() <= other_dom)) {
+          if (covered_ub < this_it->get_interval().ub()) {
             return false;
           }
           ++this_it;
